@@ -15,6 +15,9 @@ def load_paux(name: str) -> Dict:
     except:
         log.warning('Failed to load {}'.format(name))
         return dict()
+    if not isinstance(data, dict):
+        log.warning('Failed to load {}'.format(name))
+        return dict()
     return data
 
 
@@ -30,7 +33,14 @@ class externaldocument(Command):
             url = url.textContent.rstrip('/') + '/'
         labels = self.ownerDocument.context.labels
         for block in load_paux(pauxname).values():
+            if not isinstance(block, dict):
+                continue
             for lbl, val in block.items():
-                labels[prefix + lbl] = val
-                if url:
-                    labels[prefix + lbl]['url'] = url + labels[prefix + lbl]['url']
+                try:
+                    if not isinstance(val, dict):
+                        raise TypeError('not a label record')
+                    if url:
+                        val['url'] = url + val['url']
+                    labels[prefix + lbl] = val
+                except Exception as msg:
+                    log.warning('Ignoring label {} of {} ({})'.format(lbl, pauxname, msg))
